@@ -16,3 +16,32 @@ CHECKS = {
 }
 
 NOT_APPLICABLE = {}
+
+CHECKS['C05'] = dict(
+    technique='symbolic normal-form equality of loop-built arrays (guarded element-wise stores) against reference definitions, per centring x direction scenario',
+    text='Decides the definitional part of the property for all inputs: amp_fraction, amp_consistency (2 centrings x 3 directions), '
+         'period_consistency (3 directions) and monotonicity (2 centrings) have the same normal form as the documented definitions, and '
+         'compute_burst_features wires them to their columns. Not decided: the [0,1] range claim (value-level consequence of the definitions).',
+    note='Trusted: numpy min/max/nanmin/mean/diff and pandas rank semantics (model table); reference definitions in sa/refspec/burst.py; '
+         'identity nanmin(all-NaN)=NaN used to drop the redundant all-NaN guard.')
+
+CHECKS['C06'] = dict(
+    technique='symbolic normal-form equality of the labelling with the threshold-and-run reference + call-trace routing rules under dictionary scenarios',
+    text='Decides the statement modulo the C08 schema argument and numpy/pandas comparison semantics: is_burst of detect_bursts_cycles has the normal '
+         'form of runfilter(AND of four strict column>threshold tests, ends forced False, min_n_cycles); other columns untouched; compute_features routes every '
+         'threshold key to the same-named detector parameter and returns the labelled table; default/shorthand threshold keys fit the detector. '
+         'Monotonicity in the thresholds follows by the hand argument recorded in the evidence.',
+    note='Trusted: reference labelling in sa/refspec/burst.py; run-filter schema hand argument; element-wise > on columns with NaN -> False.')
+CHECKS['C07'] = dict(
+    technique='symbolic normal-form equality (16 option scenarios) + call-trace value agreement at two sinks under key-presence scenarios + signature binding against installed neurodsp source',
+    text='burst_fraction equals the mean of the sample-wise mask over [last side, next side] inclusive for both centrings, with/without duration and '
+         'filter options; detect_bursts_amp is the run filter of fraction >= threshold; for all 12 presence patterns of min_n_cycles the sample-wise detector and '
+         'the run filter receive the same value with precedence burst options > thresholds > 3; the detector call binds against the installed signature. '
+         'Not decided: the behaviour of neurodsp\'s sample-wise detector itself.',
+    note='Trusted: neurodsp detect_bursts_dual_threshold (only its signature is read); reference definitions in sa/refspec/burst.py.')
+CHECKS['C08'] = dict(
+    technique='schema conformance by symbolic normal-form equality with a reference run filter + store-value query on the array term',
+    text='check_min_burst_cycles is shown to be an instance of the run-filter schema (padded diff, even/odd transitions, strict duration test, slice '
+         'clearing with the constant False on the input array, same array returned); the schema\'s properties (exact removal of short runs, no new True, '
+         'idempotence, end runs) follow from the hand argument in DESIGN.md. Non-ndarray input is rejected.',
+    note='Trusted: hand argument for the schema; np.diff(prepend/append), np.flatnonzero, slice assignment semantics.')
